@@ -2090,6 +2090,7 @@ def run(ctx) -> None:
     correspondence(ctx)
     oracle(ctx)
     templates_correspondence(ctx)
+    template_table_section(ctx)
     if SEEN:
         for sn in SEEN[:: max(1, len(SEEN) // 4)][:4]:
             res.sample({"diagnostic": sn["e"]["msg"], "source": stmt_source(sn["fi"], sn["e"]), "hole": sn["hole"], "operand_class": sn["class"], "old_unifies": sn["v"]["old_ok"]})
@@ -2131,3 +2132,258 @@ def replay(path) -> int:
         still = [l for l in out.split("\n") if want and f"[{want}]" in l]
         print("still reported:" if still else "no longer reported (the statement needs the declarations of the file it was taken from: see built_from)", *still, sep="\n  ")
     return 0
+
+
+# --------------------------------------------------------------------------------------------
+# The messages of the checks, regenerated from their source (harness/extract_c02.py -> Generated/Templates.lean)
+#
+# (1) the regenerated table vs the committed classifications (Props/C02.lean `classified`, Model `templates` +
+#     Lemmas `templatesMore`): the Lean theorems `gen_classified` / `gen_agrees_committed` say yes or no, this section
+#     says WHICH message is new, gone or moved (evaluated by Lean itself on the regenerated table, no Python twin of `reqs`);
+# (2) every message of the real run (SEEN: ~3k diagnostics) must be an instance of exactly one (most specific)
+#     extracted template of its check: literal chunks equal, holes filled, the same hole filled the same way.
+
+GENERATED.append("Templates")
+
+_SUMMARY_SCRIPT = r"""import RefurbVerif.Generated.Templates
+open RefurbVerif.Generated RefurbVerif.Sfy RefurbVerif.C02
+def showB (b : Bool) : String := if b then "true" else "false"
+def showRole : Role → String | .old => ".old" | .new => ".new" | .other => ".other"
+def showForm : Form → String
+  | .expr => ".expr" | .assign => ".assign" | .forIn => ".forIn" | .inTail => ".inTail" | .notInTail => ".notInTail"
+  | .unmodelled => ".unmodelled" | .unparsed => ".unparsed"
+def showCls (c : FragClass) : String :=
+  "(" ++ showRole c.1 ++ ", " ++ showForm c.2.1 ++ ", [" ++ ", ".intercalate (c.2.2.map (fun h => s!"({showB h.1}, {h.2.1}, {showB h.2.2.1}, {showB h.2.2.2})")) ++ "])"
+def showReqs (rs : List Req) : String := ", ".intercalate (rs.map (fun r => s!"hole {r.hole}: level {r.level}{if r.notInt then ", not a bare int" else ""}{if r.noBrace then ", no leading brace" else ""}"))
+#eval do
+  for (c, n, cs) in genSummary do
+    IO.println s!"S\t({c}, {n}, [{", ".intercalate (cs.map showCls)}]),"
+  for c in genTable do
+    let cs := committedOf c.code
+    for g in c.frags do
+      if cs.any (fun t => t.1 == g.role) then
+        match comparableShape g with
+        | some s =>
+          if !(cs.any (fun t => t.1 == g.role && decide (t.2 = canonForm2 s))) then
+            IO.println s!"U\t{c.name}\t{g.msg}\t{showRole g.role}\t{String.ofList g.text}\t{showReqs (reqs2 1 false false s)}"
+        | none => pure ()
+    for t in committed.filter (fun (t : Template) => codeOf t.check == c.code) do
+      let cf := canonForm2 t.shape
+      if !(c.frags.any (fun g => g.role == roleOf t.role &&
+          match comparableShape g with
+          | some s => decide (cf = canonForm2 s) || !closed g
+          | none => true)) then
+        IO.println s!"G\t{t.check}\t{t.role}\t{String.ofList (render (pr2 t.shape))}"
+  for t in committed do
+    if !(genTable.any (fun c => c.code == codeOf t.check)) then
+      IO.println s!"X\t{t.check}\t{t.role}"
+"""
+
+
+def _lean_literal(line: str) -> Any:
+    """a line of the `classified` block / of the regenerated summary as a Python value"""
+    line = line.strip().rstrip(",")
+    line = re.sub(r"\.(old|new|other|expr|assign|forIn|inTail|notInTail|unmodelled|unparsed)\b", r'"\1"', line)
+    line = re.sub(r"\btrue\b", "True", line)
+    line = re.sub(r"\bfalse\b", "False", line)
+    return ast.literal_eval(line)
+
+
+def _committed_classified() -> dict[int, Any]:
+    text = (core.LEAN / "RefurbVerif" / "Props" / "C02.lean").read_text()
+    m = re.search(r"-- BEGIN classified[^\n]*\n(.*?)-- END classified", text, re.S)
+    out: dict[int, Any] = {}
+    for line in (m.group(1) if m else "").split("\n"):
+        if line.strip().startswith("("):
+            v = _lean_literal(line)
+            out[v[0]] = v
+    return out
+
+
+def _template_regex(parts: list[Any]) -> Any:
+    pat, seen = "", set()
+    for p_ in parts:
+        if isinstance(p_, int):
+            if p_ in seen:
+                pat += "(?P=h%d)" % p_
+            else:
+                seen.add(p_)
+                pat += "(?P<h%d>.*?)" % p_
+        else:
+            pat += re.escape(p_)
+    return re.compile("^" + pat + "$", re.S)
+
+
+def _squash(t: str) -> str:
+    """text without blanks, parentheses and quote style (what survives `stringify`)"""
+    return re.sub(r"[\s()]", "", t).replace("'", '"')
+
+
+def _describe_class(c: Any) -> str:
+    role, form, holes = c
+    return f"{role} {form} [" + ", ".join(("stringify" if s else "raw") + (f"@level {lv}" if lv != 99 else "@unmodelled") + (" not-int" if ni else "") + (" no-brace" if nb else "") for s, lv, ni, nb in holes) + "]"
+
+
+def template_table_section(ctx) -> None:
+    import subprocess
+
+    from .. import extract_c02
+
+    res = ctx.res
+    checks = extract_c02.all_checks()
+    by_code = {c["code"]: c for c in checks}
+    n_msgs = sum(len(c["messages"]) for c in checks)
+    n_frags = sum(len(m["fragments"]) for c in checks for m in c["messages"])
+    res.distribution["extracted_checks"] = len(checks)
+    res.distribution["extracted_messages"] = n_msgs
+    res.distribution["extracted_fragments"] = n_frags
+    forms: dict[str, int] = {}
+    closed_new = closed_new_tree = 0
+    for c in checks:
+        for m in c["messages"]:
+            for fr in m["fragments"]:
+                forms[fr["form"].split(":")[0]] = forms.get(fr["form"].split(":")[0], 0) + 1
+                if fr["role"] == "new" and fr["holes"] and all(m["holes"][i][0] == "sfy" for i in fr["holes"]):
+                    closed_new += 1
+                    closed_new_tree += fr["tree"] is not None and fr["exact"]
+    res.distribution["extracted_fragment_forms"] = forms
+    res.distribution["replacements_built_only_from_quoted_fragments"] = closed_new
+    res.distribution["…of which covered by replacement_parses (tree + exact text)"] = closed_new_tree
+    ex = by_code.get("FURB145")
+    if ex and ex["messages"]:
+        m0 = ex["messages"][0]
+        # first in the list: the samples of the earlier sections fill the quota
+        res.samples[:0] = [{"extracted template": m0["text"], "check": "FURB145", "holes": m0["holes"], "fragments": [{"role": f["role"], "text": f["text"], "form": f["form"], "positions": f["positions"]} for f in m0["fragments"]]}]
+
+    # ---- (1) what Lean computes on the regenerated table vs the committed classification
+    script = core.LEAN / ".audit" / "C02_templates.lean"
+    script.parent.mkdir(exist_ok=True)
+    script.write_text(_SUMMARY_SCRIPT)
+    p = subprocess.run(["lake", "env", "lean", str(script)], cwd=core.LEAN, capture_output=True, text=True, env=core._clean_env())
+    lines = [l for l in p.stdout.split("\n") if l[:2] in ("S\t", "U\t", "G\t", "X\t")]
+    if p.returncode != 0 or not lines:
+        res.disagree("regenerated template table", "lake env lean .audit/C02_templates.lean", "a summary of Generated/Templates.lean", (p.stdout + p.stderr)[-600:])
+    else:
+        committed = _committed_classified()
+        regenerated: dict[int, Any] = {}
+        for l in lines:
+            if l.startswith("S\t"):
+                v = _lean_literal(l[2:])
+                regenerated[v[0]] = v
+        names = {int(re.sub(r"\D", "", c["code"]) or 0): c["code"] for c in checks}
+        for code in sorted(set(committed) | set(regenerated)):
+            a, b = committed.get(code), regenerated.get(code)
+            nm = names.get(code, f"check {code}")
+            if a == b:
+                res.bump("checks_classified_as_committed")
+                continue
+            if a is None:
+                res.disagree("template classification", {"check": nm, "file": by_code.get(nm, {}).get("file")}, "not in `classified` (Props/C02.lean): a check nobody classified", {"messages": b[1], "classes": [_describe_class(c) for c in b[2]], "line for `classified`": "(%d, %d, …)" % (b[0], b[1])})
+            elif b is None:
+                res.disagree("template classification", {"check": nm}, {"messages": a[1]}, "the check is gone from the source (or builds no message the extractor finds)")
+            else:
+                gone = [_describe_class(c) for c in a[2] if c not in b[2]]
+                new = [_describe_class(c) for c in b[2] if c not in a[2]]
+                res.disagree("template classification", {"check": nm, "file": by_code.get(nm, {}).get("file"), "texts": [m["text"] for m in by_code.get(nm, {}).get("messages", [])][:12]}, {"messages": a[1], "classes only in `classified`": gone}, {"messages": b[1], "classes only in the source": new})
+        for l in lines:
+            f = l.split("\t")
+            if f[0] == "U":
+                res.disagree("hand-written template table vs source", {"check": f[1], "message": int(f[2]), "role": f[3], "fragment": f[4]}, "no entry of `templates`/`templatesMore` with this text and these hole levels (a message variant nobody classified)", f[5])
+            elif f[0] == "G":
+                res.disagree("hand-written template table vs source", {"check": f[1], "role": f[2], "template": f[3]}, "committed in `templates`/`templatesMore`", "the check no longer builds this fragment")
+            elif f[0] == "X":
+                res.disagree("hand-written template table vs source", {"check": f[1], "role": f[2]}, "committed", "no such check in the source")
+
+    # ---- (2) every real message is an instance of exactly one extracted template of its check
+    compiled: dict[str, list[tuple[int, Any, int, int]]] = {}
+    for c in checks:
+        compiled[c["code"]] = [(i, _template_regex(m["parts"]), sum(len(p_) for p_ in m["parts"] if isinstance(p_, str)), len({p_ for p_ in m["parts"] if isinstance(p_, int)})) for i, m in enumerate(c["messages"])]
+    used: dict[str, int] = {}
+    seen_msgs: set[tuple[str, str]] = set()
+    for sn in SEEN:
+        code, msg = sn["e"]["code"], sn["e"]["msg"]
+        if (code, msg) in seen_msgs:
+            res.bump("real_messages_repeated")
+            continue
+        seen_msgs.add((code, msg))
+        cands = compiled.get(code)
+        if cands is None:
+            res.bump("real_messages_of_checks_outside_refurb/checks")
+            continue
+        hits = [(lit, -nh, i) for i, rx, lit, nh in cands if rx.match(msg)]
+        res.case(("template-instance", code, msg))
+        if not hits:
+            res.disagree("template", {"check": code, "message": msg, "source": stmt_source(sn["fi"], sn["e"])}, [m["text"] for m in by_code[code]["messages"]][:20], "the real message is an instance of none of the templates extracted from the check's source")
+            continue
+        hits.sort(reverse=True)
+        best = [h for h in hits if h[:2] == hits[0][:2]]
+        if len(best) > 1:
+            # equally specific templates (FURB171 `{1} == {2}` / `{1} != {2}` when an operand contains the other operator):
+            # the right one fills its stringify-holes with text of the flagged statement
+            src_n = _squash(stmt_source(sn["fi"], sn["e"]))
+            ok = []
+            for h in best:
+                m_ = by_code[code]["messages"][h[2]]
+                mt = cands[[c_[0] for c_ in cands].index(h[2])][1].match(msg)
+                if all(_squash(mt.group("h%d" % i)) in src_n for i, hk in enumerate(m_["holes"]) if hk[0] == "sfy" and ("h%d" % i) in mt.groupdict()):
+                    ok.append(h)
+            if len(ok) == 1:
+                res.bump("real_messages_disambiguated_by_source_text")
+                hits = ok + [h for h in hits if h not in ok]
+                best = ok
+        if len(best) > 1 and len({by_code[code]["messages"][h[2]]["text"] for h in best}) > 1:
+            # an operand whose own text contains the literal chunk that tells two templates apart (`aa != bb == qq`:
+            # `{1} == {2}` or `{1} != {2}`?) and whose spelling differs from the source beyond blanks, parentheses and
+            # quotes: the text alone cannot say which template built it.  It IS an instance; it is counted, not attributed.
+            res.bump("real_messages_instance_of_several_equally_specific_templates")
+            if len(res.notes) < 40:
+                res.notes.append("instance of several equally specific templates of %s (not attributed): %s" % (code, msg[:160]))
+            continue
+        res.bump("real_messages_matched")
+        if len(hits) > 1:
+            res.bump("real_messages_matched_most_specific_of_several")
+        key = "%s#%d" % (code, hits[0][2])
+        used[key] = used.get(key, 0) + 1
+    res.distribution["template_instances"] = dict(sorted(used.items()))
+    never = ["%s#%d %s" % (c["code"], i, m["text"]) for c in checks for i, m in enumerate(c["messages"]) if "%s#%d" % (c["code"], i) not in used]
+    res.distribution["templates_exercised"] = len(used)
+    res.distribution["templates_never_exercised"] = len(never)
+    if never:
+        res.notes.append("templates never exercised by this run (%d of %d): %s" % (len(never), n_msgs, "; ".join(never[:40]) + (" …" if len(never) > 40 else "")))
+    if used:
+        k0 = max(used, key=lambda k: used[k])
+        c0, i0 = k0.split("#")
+        res.sample({"template": by_code[c0]["messages"][int(i0)]["text"], "check": c0, "real messages that instantiate it": used[k0]})
+
+    # ---- the witness of `replacement_other_tree`, against CPython: `a + b.copy()` is `a + (b.copy())`
+    t_ = ast.parse("a + b.copy()", mode="eval").body
+    if not (isinstance(t_, ast.BinOp) and isinstance(t_.right, ast.Call)):
+        res.disagree("replacement_other_tree vs CPython", "a + b.copy()", "BinOp(a, Call(b.copy))", ast.dump(t_))
+    # … and the witness of `replacement_unparsable`: `qq or ww := b` is not Python at all
+    try:
+        ast.parse("qq or ww := b", mode="eval")
+        res.disagree("replacement_unparsable vs CPython", "qq or ww := b", "SyntaxError", "parses")
+    except SyntaxError:
+        res.bump("refutation_witnesses_validated_against_cpython", 2)
+    res.assumptions += [
+        "the extractor (harness/extract_c02.py) follows string-valued locals, f-strings, `+`, conditional expressions, literal tables, `for` over literal tuples, `\"a\" | \"b\" as name` patterns and local helper functions; anything else interpolated into a message becomes a raw hole; that it finds every message is tied by the real run: every real message must instantiate an extracted template",
+    ]
+    res.not_proved += [
+        "fragments the model has no tree for (`unmodelled`: statement lists, decorators, generator expressions such as FURB122/142 `… for {0} in {1}`, holes inside names or string literals) are classified and pinned but covered by the oracle only",
+        "that a `for`/assignment target is target-shaped is a hypothesis of `replacement_parses` (it is the user's own loop target / lvalue)",
+    ]
+
+
+def regenerated_classified() -> str:
+    """the block for `classified` in Props/C02.lean, computed by Lean from the regenerated table (after a review of the
+    differences `bin/check C02` reports): `/venv/bin/python -m harness.props.c02`"""
+    script = core.LEAN / ".audit" / "C02_templates.lean"
+    script.parent.mkdir(exist_ok=True)
+    script.write_text(_SUMMARY_SCRIPT)
+    p = subprocess.run(["lake", "env", "lean", str(script)], cwd=core.LEAN, capture_output=True, text=True, env=core._clean_env())
+    lines = [l[2:] for l in p.stdout.split("\n") if l.startswith("S\t")]
+    return "\n".join("  " + l for l in lines).rstrip(",")
+
+
+if __name__ == "__main__":
+    print(regenerated_classified())
